@@ -107,7 +107,7 @@ theorem twoSiteUpdate_ok (ctx : SweepCtx k H qd numiter) (hk : Compress.SvdKerne
   obtain ⟨hbl, sql, hbr, sqr, hW, sW, hA⟩ := window_sparse hH hsp hi hcl hcr
   -- 1. the local step
   obtain ⟨Am1, h1⟩ := localStep_isOk (k := k) (L := getBL s i) (R := getBR s (i + 1)) (W := mergedW H i)
-    (A := mergedA s i) (cnorm_pos_flat3 ctx.norm hpos) hm (ctx.eigh _ _) δ
+    (A := mergedA s i) ctx.norm (cnorm_pos_flat3 ctx.norm hpos) hm (ctx.eigh _ _) δ
   obtain ⟨a0, a1, a2, hfrob⟩ := localStep_norm ctx.norm hF hHerm (ctx.eigh _ _) hexp hδ h1
   obtain ⟨hsA, _⟩ := HistWf.localStep_sparse h1 hbl hbr hW sW sql sqr hA.sp
   -- 2. the split
@@ -149,7 +149,7 @@ theorem dmrg2Update_ok (ctx : SweepCtx k H qd numiter) (hk : Compress.SvdKernel 
   obtain ⟨hbl, sql, hbr, sqr, hW, sW, hA⟩ := window_sparse hH hsp hi hcl hcr
   -- 1. the local eigenvalue problem
   obtain ⟨⟨en, Aopt⟩, h1⟩ := minimize_isOk (k := k) (L := getBL s i) (R := getBR s (i + 1)) (W := mergedW H i)
-    (A := mergedA s i) (cnorm_pos_flat3 ctx.norm hpos) hm (ctx.eigh _ _)
+    (A := mergedA s i) ctx.norm (cnorm_pos_flat3 ctx.norm hpos) hm (ctx.eigh _ _)
   obtain ⟨a0, a1, a2, hfrob, _⟩ := minimize_spec ctx.norm hF hHerm (ctx.eigh _ _) h1
   obtain ⟨hsA, _⟩ := HistWf.minimize_sparse h1 hbl hbr hW sW sql sqr hA.sp
   -- 2. the split
